@@ -7,5 +7,5 @@ open Driver
 def main (_args : List String) : IO UInt32 := do
   let stdin ← IO.getStdin
   let stdout ← IO.getStdout
-  loop stdin stdout Driver.Bs.step ([] : ActixNet.ByteString.Store)
+  loop stdin stdout Driver.Bs.step Driver.Bs.init
   return 0
